@@ -62,6 +62,9 @@ def run(F, R):
     w3_traces(F, R, tadt, cadt, im)
     w1_admission(F, R)
     w2_scan(F, R, tadt)
+    # W5: a typed slice window built from a capability never extends past the capability's byte length (shared with C13.G5)
+    from .C13 import g5_window_extent
+    g5_window_extent(F, R, rule='W5')
 
 
 # ------------------------------------------------------------------------------------------------ W3
